@@ -12,6 +12,8 @@ Harnesses
   upload        real Cloader.upload_buffer: packet size and tiling of [address, address+len).
   retry-match   real Cloader.write_flash against one fully symbolic reply (header, length, all bytes).
   retry-count   real Cloader.write_flash against a scripted sequence of replies and stale packets.
+  flash_release real Bootloader.start_bootloader + flash() with a release zip (firmwares with or without a bootloader+softdevice
+                update) against a two-target craft model whose nRF51 start page moves when the new bootloader is installed.
 
 Oracle side: protocol description in vf/env/c12_env.py. A flash page write is judged when the target executes it."""
 import struct
@@ -27,7 +29,8 @@ from cflib.bootloader.boottypes import Target as BootTarget, TargetTypes
 from cflib.bootloader.cloader import Cloader
 from cflib.crtp.crtpstack import CRTPPacket
 
-FUNCTIONS = ['cflib.bootloader:Bootloader._internal_flash', 'cflib.bootloader.cloader:Cloader.upload_buffer',
+FUNCTIONS = ['cflib.bootloader:Bootloader._internal_flash', 'cflib.bootloader:Bootloader.flash', 'cflib.bootloader:Bootloader.start_bootloader',
+             'cflib.bootloader.cloader:Cloader._update_info', 'cflib.bootloader.cloader:Cloader.request_info_update', 'cflib.bootloader.cloader:Cloader.reset_to_bootloader', 'cflib.bootloader.cloader:Cloader.upload_buffer',
              'cflib.bootloader.cloader:Cloader.write_flash', 'cflib.bootloader.boottypes:TargetTypes.from_string',
              'cflib.bootloader.boottypes:TargetTypes.to_string', 'cflib.bootloader.boottypes:Target.__init__',
              'cflib.crtp.crtpstack:CRTPPacket']
@@ -46,7 +49,7 @@ ASSUMPTIONS = ['bootloader protocol (load buffer 0x14, write flash 0x18, reply [
                'an unanswered flash write may or may not have been executed by the target (both are explored)',
                'buffer-load packets are not lost (the radio link below the bootloader protocol is outside the claim)',
                'the bytes of the last flash page behind the end of the image are not constrained (page granularity of flash)']
-OUTSIDE = ['zip/manifest handling and Bootloader.flash', 'deck flashing', 'radio link of the bootloader, loss of buffer-load packets',
+OUTSIDE = ['zip/manifest variants other than the v1 manifest of flash_release (legacy s110 fallback, conflicting requirements), deck flashing, warm boot', 'radio link of the bootloader, loss of buffer-load packets',
            'Cloader.read_flash / _update_info (not part of the statement)', 'empty image (length 0)',
            'images of more pages than the bound of the harness (pages[*]: 6 pages quick, 9 / 12 / 31 pages thorough, with any number '
            'of buffer pages; e2e[*]: 2 buffer-fulls quick, 3 thorough)',
@@ -334,6 +337,189 @@ def h_e2e(sym):
         sym.goal('several-buffer-fulls')
 
 
+# ------------------------------------------------------------------------------------------------ Bootloader.flash (release zip)
+class _Craft:
+    """The two bootloader targets of a Crazyflie 2.x as the flashing host sees them (written from the bootloader protocol):
+    get-info 0x10, load buffer 0x14, write flash 0x18, reset-init 0xFF, reset 0xF0.  A restart after a bootloader+softdevice
+    image has been staged at the end of the nRF51 flash installs it: from then on the target reports the start page of the
+    soft device the image provides."""
+    def __init__(self, nrf_start, stm_geo, nrf_geo):
+        self.geo = {TargetTypes.STM32: list(stm_geo), TargetTypes.NRF51: list(nrf_geo[:3]) + [nrf_start]}
+        self.buf = {t: [0xEE] * (g[0] * g[1]) for t, g in self.geo.items()}
+        self.flash = {t: {} for t in self.geo}
+        self.writes = []            # (boot number, target, page)
+        self.boots = 0
+        self.rx = []
+        self.staged_start = None    # start page the staged bootloader+softdevice will report once installed
+        self.info_requests = []
+
+    def handle(self, pk):
+        d = list(pk.data)
+        assert pk.header == 0xFF and 1 + len(d) <= 32, 'bootloader frame'
+        t, cmd = d[0], d[1]
+        if cmd == 0x10:
+            ps, bp, fp, sp = self.geo[t]
+            self.info_requests.append((self.boots, t))
+            self.rx.append(CRTPPacket(0xFF, list(struct.pack('<BBHHHH', t, 0x10, ps, bp, fp, sp)) + list(range(12)) + [0x10]))
+        elif cmd == 0x14:
+            page, addr = struct.unpack('<HH', bytes(d[2:6]))
+            off = page * self.geo[t][0] + addr
+            assert off + len(d) - 6 <= len(self.buf[t]), 'buffer load outside the RAM buffers'
+            self.buf[t][off:off + len(d) - 6] = d[6:]
+        elif cmd == 0x18:
+            bpage, fpage, n = struct.unpack('<HHH', bytes(d[2:8]))
+            ps, bp, fp, sp = self.geo[t]
+            assert bpage + n <= bp, 'flash write reads behind the RAM buffers'
+            for k in range(n):
+                assert fpage + k < fp, 'flash write beyond the flash size'
+                self.flash[t][fpage + k] = list(self.buf[t][(bpage + k) * ps:(bpage + k + 1) * ps])
+                self.writes.append((self.boots, t, fpage + k))
+            self.rx.append(CRTPPacket(0xFF, [t, 0x18, 1, 0]))
+        elif cmd == 0xFF:
+            self.rx.append(CRTPPacket(0xFF, [t, 0xFF, 0x11, 0x22, 0x33, 0x44, 0, 0]))
+        elif cmd == 0xF0:
+            self.boots += 1
+            del self.rx[:]
+            if self.staged_start is not None and (self.geo[TargetTypes.NRF51][2] - 1) in self.flash[TargetTypes.NRF51]:
+                self.geo[TargetTypes.NRF51][3] = self.staged_start
+        # anything else (flash mapping request) stays unanswered
+
+
+class _CraftLink:
+    def __init__(self, craft, uri):
+        self.craft, self.uri, self.closed = craft, uri, False
+
+    def send_packet(self, pk):
+        assert not self.closed, 'packet sent on a closed bootloader link'
+        self.craft.handle(pk)
+
+    def receive_packet(self, wait=0):
+        return self.craft.rx.pop(0) if self.craft.rx else None
+
+    def scan_selected(self, uris):
+        return (uris[1],)
+
+    def close(self):
+        self.closed = True
+
+
+class _Clock:
+    def __init__(self):
+        self.now = 1000.0
+
+    def time(self):
+        self.now += 0.01
+        return self.now
+
+    def sleep(self, d):
+        self.now += d
+
+
+_SD_PAGE = {'sd-s110': 88, 'sd-s130': 108}
+
+
+def h_flash_release(sym):
+    """Bootloader.start_bootloader + Bootloader.flash with a release zip (manifest v1): nRF51 and STM32 firmware, with or
+    without a bootloader+softdevice update, on a craft running either soft device.  Whatever the library decides to flash
+    ends up at the start page the target reports WHEN that image is flashed, and nowhere else; a combination the library
+    refuses is refused before anything is written."""
+    import io
+    import json
+    import os
+    import tempfile
+    import zipfile
+    import contextlib
+    import cflib.crtp
+    import cflib.bootloader.cloader as CL
+    SDS = ['sd-s110', 'sd-s130']
+    sd_before = SDS[sym.choice('sd_before', 2)]
+    zip_has_sd = True if sym.bool('zip_has_bootloader_softdevice') else False
+    sd_provided = SDS[sym.choice('sd_provided', 2)] if zip_has_sd else None
+    fw_requires = SDS[sym.choice('fw_requires', 2)]
+    NP, SP_ = 64, 128                 # small pages; the page NUMBERS are the real ones
+    nrf_lens = [1, NP, 2 * NP + 17]
+    stm_lens = [SP_ * 3 + 40, SP_ * 7]           # more than one buffer-full (3 buffer pages)
+    nrf_fw = [(i * 7 + 3) % 251 + 1 for i in range(nrf_lens[sym.choice('nrf_len', len(nrf_lens))])]
+    stm_fw = [(i * 5 + 11) % 251 + 1 for i in range(stm_lens[sym.choice('stm_len', len(stm_lens))])]
+    sd_img = [(i * 3 + 1) % 251 + 1 for i in range(8 * NP)]
+    sym.apply_known()
+    NRF, STM = TargetTypes.NRF51, TargetTypes.STM32
+    craft = _Craft(_SD_PAGE[sd_before], (SP_, 3, 64, 4), (NP, 1, 232))
+    if zip_has_sd:
+        craft.staged_start = _SD_PAGE[sd_provided]
+
+    def meta(target, typ, **kw):
+        m = {'platform': 'cf2', 'target': target, 'type': typ, 'release': '2025.02', 'repository': 'x'}
+        m.update(kw)
+        return m
+    files = {'cf2_nrf.bin': (bytes(nrf_fw), meta('nrf51', 'fw', requires=[fw_requires])),
+             'cf2_stm.bin': (bytes(stm_fw), meta('stm32', 'fw'))}
+    if zip_has_sd:
+        files = dict([('sd_bl.bin', (bytes(sd_img), meta('nrf51', 'bootloader+softdevice', provides=[sd_provided], release='1.1')))] +
+                     list(files.items()))
+    tmp = tempfile.mkdtemp(prefix='vf-c12-')
+    zpath = os.path.join(tmp, 'release.zip')
+    with zipfile.ZipFile(zpath, 'w') as zf:
+        for name, (content, m) in files.items():
+            zf.writestr(name, content)
+        zf.writestr('manifest.json', json.dumps({'version': 1, 'subversion': 1, 'release': 'r', 'files': {n: m for n, (_, m) in files.items()}}))
+    saved = (cflib.crtp.get_link_driver, BL.time, CL.time)
+    clock = _Clock()
+    cflib.crtp.get_link_driver = lambda uri, *a, **k: _CraftLink(craft, uri)
+    BL.time = clock
+    CL.time = clock
+    raised = None
+    try:
+        bl = Bootloader('radio://0/80/2M/E7E7E7E7E7')
+        with contextlib.redirect_stdout(io.StringIO()):
+            assert bl.start_bootloader(warm_boot=False), 'bootloader not found'
+            try:
+                bl.flash(zpath, [])
+            except Exception as e:
+                if _is_control(e):
+                    raise
+                raised = e
+    finally:
+        cflib.crtp.get_link_driver, BL.time, CL.time = saved
+        os.remove(zpath)
+        os.rmdir(tmp)
+
+    satisfiable = fw_requires == sd_before or sd_provided == fw_requires
+    if raised is not None:
+        assert not satisfiable, f'flashing a consistent release failed: {type(raised).__name__}: {raised}'
+        assert craft.writes == [], 'a release that is refused was partly written'
+        sym.goal('refused')
+        return
+    assert satisfiable, 'firmware flashed although the soft device it requires is neither present nor provided'
+    nrf_start = craft.geo[NRF][3]            # what the target reports now
+    if craft.boots:
+        sym.goal('restarted-into-new-bootloader')
+        if nrf_start != _SD_PAGE[sd_before]:
+            sym.goal('start-page-moved')
+    last_boot = craft.boots
+
+    def pages(img, ps, first):
+        return {first + k: img[k * ps:(k + 1) * ps] for k in range((len(img) + ps - 1) // ps)}
+    exp_nrf, exp_stm = pages(nrf_fw, NP, nrf_start), pages(stm_fw, SP_, 4)
+    for t, exp, name in ((NRF, exp_nrf, 'nRF51'), (STM, exp_stm, 'STM32')):
+        for pg, chunk in exp.items():
+            got = craft.flash[t].get(pg)
+            assert got is not None and got[:len(chunk)] == chunk, \
+                f'{name} firmware is not at the start page the target reports ({nrf_start if t == NRF else 4}): page {pg}'
+        stray = sorted(set(p_ for (b, tt, p_) in craft.writes if tt == t and b == last_boot and p_ not in exp))
+        if t == NRF and last_boot == 0 and zip_has_sd:
+            stray = []      # no restart happened: judged below
+        assert not stray, f'{name}: pages outside the image were written after the last restart: {stray}'
+    if craft.boots:
+        # before the restart: only the staged bootloader+softdevice (end of flash) and the erased first firmware page
+        staged = set(range(232 - len(sd_img) // NP, 232))
+        early = set(p_ for (b, tt, p_) in craft.writes if tt == NRF and b < last_boot)
+        assert early <= staged | {_SD_PAGE[sd_before]}, f'pages written before the restart: {sorted(early - staged)}'
+        assert all(craft.flash[NRF][p_] == sd_img[(p_ - min(staged)) * NP:(p_ - min(staged) + 1) * NP] for p_ in staged), \
+            'bootloader+softdevice image not staged at the end of the flash'
+    sym.goal('flashed')
+
+
 # ------------------------------------------------------------------------------------------------ upload_buffer
 class _RecLink:
     def __init__(self):
@@ -608,6 +794,10 @@ HARNESSES = [
             thorough=dict(page_sizes=_SMALL + [5, 6, 7, 8, 1024], bits=25), timeout=(600, 1700), per_path=700.0, goals=('proved',),
             note='justifies float_model=real of pages[*]: IEEE double division + truncation == floor division for all lengths '
                  '<= 2^25 and the page sizes used there'),
+    Harness('flash_release', h_flash_release, symbolic=False, timeout=(600, 1500),
+            goals=('flashed', 'refused', 'restarted-into-new-bootloader', 'start-page-moved'),
+            note='Bootloader.start_bootloader + flash() with a release zip against a two-target craft model: soft device before, '
+                 'bootloader+softdevice update present or not, soft device provided/required, image lengths are solver-chosen'),
     Harness('upload', h_upload, quick=dict(max_len=80), thorough=dict(max_len=130), timeout=(280, 900),
             goals=('split', 'exact-multiple-of-25')),
     Harness('upload[0xFF slots]', h_upload, quick=dict(max_len=80, ff_slots=True), thorough=dict(max_len=130, ff_slots=True), timeout=(600, 1700),
